@@ -1328,3 +1328,19 @@ def _scope_var_growth(repo, ob, failure):
 
 GENERATORS.insert(0, ("C17.scope.", _scope_var_growth))
 GENERATORS.insert(0, ("C01.scope.", _scope_var_growth))
+
+
+def _tag_text_decoded(repo, ob, failure):
+    """character data next to child elements (a tag's text / tail) reaches the output escaped exactly once"""
+    docs = ['<svg><text x="1" y="2">R&amp;D <tspan>a &lt; b</tspan> &lt; c</text></svg>',
+            '<svg><g>x &amp; y<rect wh="5"/> tail &gt; t</g></svg>']
+    for doc in docs:
+        r = run_svgdx(repo, doc, args=("--no-auto-styles",))
+        if r["rc"] == 0 and ("&amp;amp;" in r["out"] or "&amp;lt;" in r["out"] or "&amp;gt;" in r["out"]):
+            return {"input": doc, "args": ["--no-auto-styles"], "observed": r["out"].strip()[-200:], "expected": "every entity of the input text written once (&amp; stays &amp;)"}
+    return None
+
+
+GENERATORS.insert(0, ("C19.tag_text", _tag_text_decoded))
+GENERATORS.insert(0, ("C02.tag_text", _tag_text_decoded))
+GENERATORS.insert(0, ("C03.tag_text", _tag_text_decoded))
